@@ -10,7 +10,9 @@ from ..core import Prop, Workload
 
 
 def probe(ctx, f, shadow, where, case):
-    for k in shadow:
+    # the order of the look-ups alternates (insertion order / reverse): an answer must not depend on which key was queried just before
+    order = shadow if ctx.counters["full_probes"] % 2 == 0 else list(reversed(shadow))
+    for k in order:
         ctx.counters["oracle_evaluations"] += 2
         if not f.check(k):
             ctx.fail(f"added key reported absent by check() {where}", key=k, n_keys=len(shadow))
@@ -368,6 +370,54 @@ def wl_boundary(ctx, rng, case):
         sc.cleanup()
 
 
+def wl_many_keys(ctx, rng, case):
+    """hundreds of distinct keys through one filter (far more than any small cache holds), among them non-ASCII texts AND their UTF-8 byte
+    strings (two different keys for FNV-1a); every key is probed again at the end"""
+    import probables as P
+
+    kind = ["plain", "ondisk", "expanding"][case.index % 3]
+    hname, hf = gen.pick_hash(rng, [], kind=rng.choice(["library_default", "library_default", "default_fnv_1a", "default_md5", "decorated_int_sha512"]))
+    est, rate = rng.choice([(1000, 0.001), (500, 0.01), (2000, 0.0001)])
+    sc = bl.Scratch(ctx, case)
+    case.desc = {"kind": kind, "hash": hname, "est": est, "rate": rate}
+    f = None
+    try:
+        if kind == "plain":
+            f = P.BloomFilter(est, rate, **bl.kw_hash(hf))
+        elif kind == "ondisk":
+            f = P.BloomFilterOnDisk(sc.path("many"), est, rate, **bl.kw_hash(hf))
+        else:
+            f = P.ExpandingBloomFilter(est_elements=60, false_positive_rate=rate, **bl.kw_hash(hf))
+        special = []
+        for t in ("caf\u00e9", "\u043a\u043b\u044e\u0447", "na\u00efve", "\u9375", "\u00fc", "x\u00e9y"):
+            pair = [t, t.encode("utf-8")]
+            rng.shuffle(pair)
+            special.extend(pair)
+        shadow = []
+        for k in special:
+            f.add(k)
+            shadow.append(k)
+        n_more = rng.randint(300, 700)
+        for i in range(n_more):
+            k = f"many-{case.index}-{i}" if i % 3 else b"many-%d-%d" % (case.index, i)
+            f.add(k)
+            if i % 7 == 0:
+                f.check(f"probe-{i}")
+            shadow.append(k)
+        case.op("added", len(shadow))
+        probe(ctx, f, shadow, f"after {len(shadow)} distinct keys", case)
+        probe(ctx, f, shadow, f"after {len(shadow)} distinct keys (other look-up order)", case)
+        ctx.count("many_key_cases")
+        case.nontrivial = True
+    finally:
+        if f is not None and hasattr(f, "close"):
+            try:
+                f.close()
+            except Exception:
+                pass
+        sc.cleanup()
+
+
 PROP = Prop(
     "C01",
     "exploration",
@@ -377,10 +427,11 @@ PROP = Prop(
           "at least one growth, union or reload happened; distinct by hash of (parameters, operation sequence)."),
     workloads=[
         Workload("boundary", wl_boundary, quick=90, thorough=1800),
+        Workload("many_keys", wl_many_keys, quick=12, thorough=600),
         Workload("plain", wl_plain, quick=1600, thorough=120000),
         Workload("expanding", wl_expanding, quick=1000, thorough=80000),
     ],
     assumptions=["shadow set kept by the harness; a key is 'added' once add/add_alt returned normally",
                  "geometries are screened with the independent sizing so that number_bits/number_hashes are unambiguous"],
-    required=["full_probes", "monotonicity_checks", "op.reload", "op.union", "cases_with_growth"],
+    required=["full_probes", "monotonicity_checks", "op.reload", "op.union", "cases_with_growth", "many_key_cases"],
 )
